@@ -2,6 +2,8 @@ import Splipy.Lemmas.C05Clamped
 import Splipy.Lemmas.C05Volume
 import Splipy.Lemmas.BridgeC05
 import Splipy.Lemmas.BridgePointwise
+import Splipy.Lemmas.C05PerGeom
+import Splipy.Lemmas.C05PerDir
 
 /-!
 # C05 ⇒ `evaluate` for surfaces: the re-netted object returns the same tensor
@@ -47,6 +49,33 @@ theorem renet_sameAlong {o : Obj K} (hw : C06.WF o m) (d : Fin m) {tol : K} (hto
       ((o.basis d).specRow u) (b'.specRow u) := by
   intro a i ha hi
   have h := hrows (fun j => C04.fibre o d a i j) u
+  have l : ∑ r ∈ range b'.numFunctions, b'.specRow u r * C04.fibre (renet o d b' E) d a i r
+      = ∑ k ∈ range b'.numFunctions, (b'.evaluate tol u 0 true).getD k 0
+          * ∑ j ∈ range (o.basis d).numFunctions, C04.fibre o d a i j * E j k := by
+    apply sum_congr rfl
+    intro r hr
+    rw [Bridge.specRow_eq_evaluate hv' htol hu' (mem_range.mp hr),
+      renet_fibre hw d b' E a i r ha hi (mem_range.mp hr)]
+    congr 1
+    apply sum_congr rfl
+    intro j _
+    ring
+  have r : ∑ j ∈ range (o.basis d).numFunctions, (o.basis d).specRow u j * C04.fibre o d a i j
+      = ∑ j ∈ range (o.basis d).numFunctions, ((o.basis d).evaluate tol u 0 true).getD j 0 * C04.fibre o d a i j := by
+    apply sum_congr rfl
+    intro j hj
+    rw [Bridge.specRow_eq_evaluate (hw.valid d) htol hu (mem_range.mp hj)]
+  rw [l, r]
+  exact h
+
+/-- The same from `RowsOn` (row identity only at parameters admissible for both bases). -/
+theorem renet_sameAlong_on {o : Obj K} (hw : C06.WF o m) (d : Fin m) {tol : K} (htol : 0 < tol) (b' : Basis K)
+    (hv' : b'.Valid) (E : ℕ → ℕ → K) (hrows : RowsOn tol (o.basis d) b' E) {u : K}
+    (hu : (o.basis d).Admissible tol u) (hu' : b'.Admissible tol u) :
+    Bridge.SameAlong o (renet o d b' E) d (o.basis d).numFunctions b'.numFunctions
+      ((o.basis d).specRow u) (b'.specRow u) := by
+  intro a i ha hi
+  have h := hrows (fun j => C04.fibre o d a i j) u hu hu'
   have l : ∑ r ∈ range b'.numFunctions, b'.specRow u r * C04.fibre (renet o d b' E) d a i r
       = ∑ k ∈ range b'.numFunctions, (b'.evaluate tol u 0 true).getD k 0
           * ∑ j ∈ range (o.basis d).numFunctions, C04.fibre o d a i j * E j k := by
@@ -179,6 +208,69 @@ theorem bridge_C05_clamped_surface (tol : K) (htol : 0 < tol)
   · rcases hnz with h | h
     · exact ⟨(au : Int), by simp, by omega⟩
     · exact ⟨(av : Int), by simp, by omega⟩
+
+/-- **Surfaces, weak form (periodic directions allowed): `raise_order_implicit` under `DirOKw` in both
+    directions returns an object that evaluates to the same tensor** at parameters admissible for the
+    old and new bases. -/
+theorem raiseImplicit_surface_sameEval_w (o : Obj K) (tol : K) (htol : 0 < tol) (hw : C06.WF o 2) (au av : ℕ)
+    (bu' bv' : Basis K) (Eu Ev : ℕ → ℕ → K) (hu : DirOKw tol (o.basis 0) au bu' Eu)
+    (hv : DirOKw tol (o.basis 1) av bv' Ev) (hnc : o.rational = true → 1 ≤ o.ncomp) :
+    ∃ o', o.raiseOrderImplicit tol [au, av] = .ok o'
+      ∧ SameEvalSurface tol (o.basis 0) bu' (o.basis 1) bv' o o' := by
+  obtain ⟨pu, Niu, hgu, Hu, pju⟩ := hu.hsw
+  obtain ⟨pv, Niv, hgv, Hv, pjv⟩ := hv.hsw
+  have heq := raiseImplicit_surface_eq_proj o tol hw au av bu' bv' hu.raise hv.raise pu pv hgu hgv Niu Niv Hu Hv
+    Eu Ev pju pjv
+  refine ⟨_, heq, ?_⟩
+  intro us vs hus hus' hvs hvs'
+  have hb := bases_of_wf2 hw
+  have hs := shape_of_wf2 hw
+  obtain ⟨w1', b1d, b1k, n1', r1'⟩ := renet_wf hw (0 : Fin 2) bu' hu.valid' Eu
+  set o1 := renet o 0 bu' Eu with ho1
+  have w1 : C06.WF o1 2 := w1'
+  have n1 : o1.ncomp = o.ncomp := n1'
+  have r1 : o1.rational = o.rational := r1'
+  have hb11 : o1.basis 1 = o.basis 1 := b1k (1 : Fin 2) (by decide)
+  have hb10 : o1.basis 0 = bu' := b1d
+  have hb1 : o1.bases = #[bu', o.basis 1] := by rw [bases_of_wf2 w1, hb10, hb11]
+  have hs1 : o1.cps.shape = [bu'.numFunctions, (o.basis 1).numFunctions, o.ncomp] := by
+    rw [shape_of_wf2 w1, hb10, hb11, n1]
+  have hv1' : DirOKw tol (o1.basis ((1 : Fin 2) : ℕ)) av bv' Ev := by
+    show DirOKw tol (o1.basis 1) av bv' Ev
+    rw [hb11]; exact hv
+  obtain ⟨w2', b2d', b2k, n2', r2'⟩ := renet_wf w1 (1 : Fin 2) bv' hv.valid' Ev
+  set o2 := renet o1 1 bv' Ev with ho2
+  have w2 : C06.WF o2 2 := w2'
+  have n2 : o2.ncomp = o1.ncomp := n2'
+  have r2 : o2.rational = o1.rational := r2'
+  have b2d : o2.basis 1 = bv' := b2d'
+  have hb20 : o2.basis 0 = bu' := (b2k (0 : Fin 2) (by decide)).trans hb10
+  have hb2 : o2.bases = #[bu', bv'] := by rw [bases_of_wf2 w2, hb20, b2d]
+  have hs2 : o2.cps.shape = [bu'.numFunctions, bv'.numFunctions, o.ncomp] := by
+    rw [shape_of_wf2 w2, hb20, b2d, n2, n1]
+  -- step 1: direction 0
+  obtain ⟨e1, res, er, esh⟩ := Bridge.transfer_surface_u hb hb1 (hw.valid 0) hu.valid' (hw.valid 1) hs hs1 r1 hnc
+    htol rfl hus hus' hvs
+    (fun p hp => renet_sameAlong_on hw (0 : Fin 2) htol bu' hu.valid' Eu hu.rows
+      (hus _ (getD_mem_of_lt us hp 0)) (hus' _ (getD_mem_of_lt us hp 0)))
+  -- step 2: direction 1
+  have hrows1 : RowsOn tol (o1.basis ((1 : Fin 2) : ℕ)) bv' Ev := hv1'.rows
+  have hvs1 : ∀ v ∈ vs, (o1.basis ((1 : Fin 2) : ℕ)).Admissible tol v := by
+    intro v hv0
+    show (o1.basis 1).Admissible tol v
+    rw [hb11]; exact hvs v hv0
+  obtain ⟨e2, _, _, _⟩ := Bridge.transfer_surface_v (b1 := bu') (b2 := o.basis 1) (b2' := bv') hb1 hb2 hu.valid'
+    (hw.valid 1) hv.valid' hs1 hs2 r2 (by rw [r1]; exact hnc) htol rfl hus' hvs hvs'
+    (fun p hp => by
+      have := renet_sameAlong_on w1 (1 : Fin 2) htol bv' hv.valid' Ev hrows1
+        (hvs1 _ (getD_mem_of_lt vs hp 0)) (hvs' _ (getD_mem_of_lt vs hp 0))
+      have e : o1.basis ((1 : Fin 2) : ℕ) = o.basis 1 := hb11
+      rw [e] at this
+      exact this)
+  have etot : o2.evaluate tol [us, vs] true = o.evaluate tol [us, vs] true := e2.trans e1
+  refine ⟨res, er, esh, etot.trans er, ?_⟩
+  exact Bridge.pointwise_surface hb hb2 (hw.valid 0) hu.valid' (hw.valid 1) hv.valid' hs hs2 (r2.trans r1) hnc htol
+    rfl rfl hus hus' hvs hvs' etot
 
 /-! ## Volumes -/
 
@@ -333,5 +425,218 @@ theorem bridge_C05_clamped_volume (tol : K) (htol : 0 < tol)
     · exact ⟨(au : Int), by simp, by omega⟩
     · exact ⟨(av : Int), by simp, by omega⟩
     · exact ⟨(aw : Int), by simp, by omega⟩
+
+/-- **Volumes, weak form (periodic directions allowed).** -/
+theorem raiseImplicit_volume_sameEval_w (o : Obj K) (tol : K) (htol : 0 < tol) (hw : C06.WF o 3) (au av aw : ℕ)
+    (bu' bv' bw' : Basis K) (Eu Ev Ew : ℕ → ℕ → K) (hu : DirOKw tol (o.basis 0) au bu' Eu)
+    (hv : DirOKw tol (o.basis 1) av bv' Ev) (hw2 : DirOKw tol (o.basis 2) aw bw' Ew)
+    (hnc : o.rational = true → 1 ≤ o.ncomp) :
+    ∃ o', o.raiseOrderImplicit tol [au, av, aw] = .ok o'
+      ∧ SameEvalVolume tol (o.basis 0) bu' (o.basis 1) bv' (o.basis 2) bw' o o' := by
+  obtain ⟨pu, Niu, hgu, Hu, pju⟩ := hu.hsw
+  obtain ⟨pv, Niv, hgv, Hv, pjv⟩ := hv.hsw
+  obtain ⟨pw, Niw, hgw, Hw, pjw⟩ := hw2.hsw
+  have heq := raiseImplicit_volume_eq_proj o tol hw au av aw bu' bv' bw' hu.raise hv.raise hw2.raise pu pv pw
+    hgu hgv hgw Niu Niv Niw Hu Hv Hw Eu Ev Ew pju pjv pjw
+  refine ⟨_, heq, ?_⟩
+  intro us vs ws hus hus' hvs hvs' hws hws'
+  have hb := bases_of_wf3 hw
+  have hs := shape_of_wf3 hw
+  -- step 1
+  obtain ⟨w1', b1d, b1k, n1', r1'⟩ := renet_wf hw (0 : Fin 3) bu' hu.valid' Eu
+  set o1 := renet o 0 bu' Eu with ho1
+  have w1 : C06.WF o1 3 := w1'
+  have n1 : o1.ncomp = o.ncomp := n1'
+  have r1 : o1.rational = o.rational := r1'
+  have hb10 : o1.basis 0 = bu' := b1d
+  have hb11 : o1.basis 1 = o.basis 1 := b1k (1 : Fin 3) (by decide)
+  have hb12 : o1.basis 2 = o.basis 2 := b1k (2 : Fin 3) (by decide)
+  have hb1 : o1.bases = #[bu', o.basis 1, o.basis 2] := by rw [bases_of_wf3 w1, hb10, hb11, hb12]
+  have hs1 : o1.cps.shape = [bu'.numFunctions, (o.basis 1).numFunctions, (o.basis 2).numFunctions, o.ncomp] := by
+    rw [shape_of_wf3 w1, hb10, hb11, hb12, n1]
+  -- step 2
+  have hv1' : DirOKw tol (o1.basis ((1 : Fin 3) : ℕ)) av bv' Ev := by
+    show DirOKw tol (o1.basis 1) av bv' Ev
+    rw [hb11]; exact hv
+  obtain ⟨w2', b2d', b2k, n2', r2'⟩ := renet_wf w1 (1 : Fin 3) bv' hv.valid' Ev
+  set o2 := renet o1 1 bv' Ev with ho2
+  have w2 : C06.WF o2 3 := w2'
+  have n2 : o2.ncomp = o1.ncomp := n2'
+  have r2 : o2.rational = o1.rational := r2'
+  have hb21 : o2.basis 1 = bv' := b2d'
+  have hb20 : o2.basis 0 = bu' := (b2k (0 : Fin 3) (by decide)).trans hb10
+  have hb22 : o2.basis 2 = o.basis 2 := (b2k (2 : Fin 3) (by decide)).trans hb12
+  have hb2 : o2.bases = #[bu', bv', o.basis 2] := by rw [bases_of_wf3 w2, hb20, hb21, hb22]
+  have hs2 : o2.cps.shape = [bu'.numFunctions, bv'.numFunctions, (o.basis 2).numFunctions, o.ncomp] := by
+    rw [shape_of_wf3 w2, hb20, hb21, hb22, n2, n1]
+  -- step 3
+  have hw2' : DirOKw tol (o2.basis ((2 : Fin 3) : ℕ)) aw bw' Ew := by
+    show DirOKw tol (o2.basis 2) aw bw' Ew
+    rw [hb22]; exact hw2
+  obtain ⟨w3', b3d', b3k, n3', r3'⟩ := renet_wf w2 (2 : Fin 3) bw' hw2.valid' Ew
+  set o3 := renet o2 2 bw' Ew with ho3
+  have w3 : C06.WF o3 3 := w3'
+  have n3 : o3.ncomp = o2.ncomp := n3'
+  have r3 : o3.rational = o2.rational := r3'
+  have hb32 : o3.basis 2 = bw' := b3d'
+  have hb30 : o3.basis 0 = bu' := (b3k (0 : Fin 3) (by decide)).trans hb20
+  have hb31 : o3.basis 1 = bv' := (b3k (1 : Fin 3) (by decide)).trans hb21
+  have hb3 : o3.bases = #[bu', bv', bw'] := by rw [bases_of_wf3 w3, hb30, hb31, hb32]
+  have hs3 : o3.cps.shape = [bu'.numFunctions, bv'.numFunctions, bw'.numFunctions, o.ncomp] := by
+    rw [shape_of_wf3 w3, hb30, hb31, hb32, n3, n2, n1]
+  -- transfers
+  obtain ⟨e1, res, er, esh⟩ := Bridge.transfer_volume_u hb hb1 (hw.valid 0) hu.valid' (hw.valid 1) (hw.valid 2)
+    hs hs1 r1 hnc htol rfl hus hus' hvs hws
+    (fun p hp => renet_sameAlong_on hw (0 : Fin 3) htol bu' hu.valid' Eu hu.rows
+      (hus _ (getD_mem_of_lt us hp 0)) (hus' _ (getD_mem_of_lt us hp 0)))
+  have hrows1 : RowsOn tol (o1.basis ((1 : Fin 3) : ℕ)) bv' Ev := hv1'.rows
+  have hvs1 : ∀ v ∈ vs, (o1.basis ((1 : Fin 3) : ℕ)).Admissible tol v := by
+    intro v hv0
+    show (o1.basis 1).Admissible tol v
+    rw [hb11]; exact hvs v hv0
+  obtain ⟨e2, _, _, _⟩ := Bridge.transfer_volume_v (b1 := bu') (b2 := o.basis 1) (b2' := bv') (b3 := o.basis 2)
+    hb1 hb2 hu.valid' (hw.valid 1) hv.valid' (hw.valid 2) hs1 hs2 r2 (by rw [r1]; exact hnc) htol rfl hus' hvs hvs' hws
+    (fun p hp => by
+      have := renet_sameAlong_on w1 (1 : Fin 3) htol bv' hv.valid' Ev hrows1
+        (hvs1 _ (getD_mem_of_lt vs hp 0)) (hvs' _ (getD_mem_of_lt vs hp 0))
+      have e : o1.basis ((1 : Fin 3) : ℕ) = o.basis 1 := hb11
+      rw [e] at this
+      exact this)
+  have hrows2 : RowsOn tol (o2.basis ((2 : Fin 3) : ℕ)) bw' Ew := hw2'.rows
+  have hws2 : ∀ v ∈ ws, (o2.basis ((2 : Fin 3) : ℕ)).Admissible tol v := by
+    intro v hv0
+    show (o2.basis 2).Admissible tol v
+    rw [hb22]; exact hws v hv0
+  obtain ⟨e3, _, _, _⟩ := Bridge.transfer_volume_w (b1 := bu') (b2 := bv') (b3 := o.basis 2) (b3' := bw')
+    hb2 hb3 hu.valid' hv.valid' (hw.valid 2) hw2.valid' hs2 hs3 r3 (by rw [r2, r1]; exact hnc) htol rfl hus' hvs' hws hws'
+    (fun p hp => by
+      have := renet_sameAlong_on w2 (2 : Fin 3) htol bw' hw2.valid' Ew hrows2
+        (hws2 _ (getD_mem_of_lt ws hp 0)) (hws' _ (getD_mem_of_lt ws hp 0))
+      have e : o2.basis ((2 : Fin 3) : ℕ) = o.basis 2 := hb22
+      rw [e] at this
+      exact this)
+  have etot : o3.evaluate tol [us, vs, ws] true = o.evaluate tol [us, vs, ws] true := (e3.trans e2).trans e1
+  refine ⟨res, er, esh, etot.trans er, ?_⟩
+  exact Bridge.pointwise_volume hb hb3 (hw.valid 0) hu.valid' (hw.valid 1) hv.valid' (hw.valid 2) hw2.valid' hs hs3
+    ((r3.trans r2).trans r1) hnc htol rfl rfl rfl hus hus' hvs hvs' hws hws' etot
+
+
+/-! ## Periodic directions of surfaces and volumes -/
+
+/-- The public `raise_order(a_u, a_v)` on a surface whose directions are `DirOKw`. -/
+theorem raiseOrder_surface_sameEval_w (o : Obj K) (tol : K) (htol : 0 < tol) (hw : C06.WF o 2) (au av : ℕ)
+    (bu' bv' : Basis K) (Eu Ev : ℕ → ℕ → K) (hu : DirOKw tol (o.basis 0) au bu' Eu)
+    (hv : DirOKw tol (o.basis 1) av bv' Ev) (hnc : o.rational = true → 1 ≤ o.ncomp)
+    (hnz : au ≠ 0 ∨ av ≠ 0) (hguard : Obj.raiseGuard tol o.bases.toList = .ok true) :
+    ∃ o', o.raiseOrder tol [(au : Int), (av : Int)] none = .ok (.self, o')
+      ∧ o.raiseOrderImplicit tol [au, av] = .ok o'
+      ∧ SameEvalSurface tol (o.basis 0) bu' (o.basis 1) bv' o o' := by
+  obtain ⟨o', himp, hse⟩ := raiseImplicit_surface_sameEval_w o tol htol hw au av bu' bv' Eu Ev hu hv hnc
+  have hpd : o.pardim = 2 := by rw [Obj.pardim, shape_of_wf2 hw]; rfl
+  refine ⟨o', ?_, himp, hse⟩
+  apply raiseOrder_of_implicit o tol _ none [(au : Int), (av : Int)] o' (by simp [Obj.normRaises]) ?_ ?_ hguard
+    (by simpa using himp)
+  · intro r hr; simp at hr; rcases hr with rfl | rfl <;> omega
+  · rcases hnz with h | h
+    · exact ⟨(au : Int), by simp, by omega⟩
+    · exact ⟨(av : Int), by simp, by omega⟩
+
+/-- The public `raise_order(a_u, a_v, a_w)` on a volume whose directions are `DirOKw`. -/
+theorem raiseOrder_volume_sameEval_w (o : Obj K) (tol : K) (htol : 0 < tol) (hw : C06.WF o 3) (au av aw : ℕ)
+    (bu' bv' bw' : Basis K) (Eu Ev Ew : ℕ → ℕ → K) (hu : DirOKw tol (o.basis 0) au bu' Eu)
+    (hv : DirOKw tol (o.basis 1) av bv' Ev) (hw2 : DirOKw tol (o.basis 2) aw bw' Ew)
+    (hnc : o.rational = true → 1 ≤ o.ncomp)
+    (hnz : au ≠ 0 ∨ av ≠ 0 ∨ aw ≠ 0) (hguard : Obj.raiseGuard tol o.bases.toList = .ok true) :
+    ∃ o', o.raiseOrder tol [(au : Int), (av : Int), (aw : Int)] none = .ok (.self, o')
+      ∧ o.raiseOrderImplicit tol [au, av, aw] = .ok o'
+      ∧ SameEvalVolume tol (o.basis 0) bu' (o.basis 1) bv' (o.basis 2) bw' o o' := by
+  obtain ⟨o', himp, hse⟩ := raiseImplicit_volume_sameEval_w o tol htol hw au av aw bu' bv' bw' Eu Ev Ew hu hv hw2 hnc
+  refine ⟨o', ?_, himp, hse⟩
+  apply raiseOrder_of_implicit o tol _ none [(au : Int), (av : Int), (aw : Int)] o' (by simp [Obj.normRaises])
+    ?_ ?_ hguard (by simpa using himp)
+  · intro r hr; simp at hr; rcases hr with rfl | rfl | rfl <;> omega
+  · rcases hnz with h | h | h
+    · exact ⟨(au : Int), by simp, by omega⟩
+    · exact ⟨(av : Int), by simp, by omega⟩
+    · exact ⟨(aw : Int), by simp, by omega⟩
+
+/-- **C05 ⇒ evaluate, a surface periodic in `u` and clamped in `v`** — relative to `H_sw` for the
+    periodic direction and admissibility of its Greville points only. -/
+theorem bridge_C05_periodic_surface {tol : K} {p k : ℕ} {w0 : K} {wr : List K} {μ0 : ℕ} {μr : List ℕ} {T : K}
+    (h : PerData tol p k w0 wr μ0 μr T) (htol : 0 < tol) (au : ℕ)
+    (pts : Array K) (hg : (perBasis (p + au) k (w0 :: wr) ((μ0 :: μr).map (· + au)) T).greville = .ok pts)
+    (hadm : ∀ t ∈ pts.toList, (perBasis p k (w0 :: wr) (μ0 :: μr) T).Admissible tol t ∧
+      (perBasis (p + au) k (w0 :: wr) ((μ0 :: μr).map (· + au)) T).Admissible tol t)
+    (Ni : Mat K)
+    (H_sw : Mat.invChecked (Obj.basisMat (perBasis (p + au) k (w0 :: wr) ((μ0 :: μr).map (· + au)) T) tol
+      pts.toList 0 true) = .ok Ni)
+    (qv av : ℕ) (hqv : 1 ≤ qv + av) (x0v xlv : K) (umidv : List K) (mmidv : List ℕ)
+    (hlenv : umidv.length = mmidv.length) (hmv : ∀ j ∈ mmidv, 1 ≤ j ∧ j ≤ qv)
+    (hgapv : Separated (2 * ((qv + av : ℕ) : K) * tol) (clampedU x0v xlv umidv))
+    (hnz : au ≠ 0 ∨ av ≠ 0)
+    (o : Obj K) (hw : C06.WF o 2)
+    (hb0 : o.basis 0 = perBasis p k (w0 :: wr) (μ0 :: μr) T)
+    (hb1 : o.basis 1 = openBasis (qv+1) (clampedU x0v xlv umidv) (clampedM (qv+1) mmidv))
+    (hnc : o.rational = true → 1 ≤ o.ncomp) :
+    ∃ o', o.raiseOrder tol [(au : Int), (av : Int)] none = .ok (.self, o')
+      ∧ o.raiseOrderImplicit tol [au, av] = .ok o'
+      ∧ SameEvalSurface tol
+          (perBasis p k (w0 :: wr) (μ0 :: μr) T)
+          (perBasis (p + au) k (w0 :: wr) ((μ0 :: μr).map (· + au)) T)
+          (openBasis (qv+1) (clampedU x0v xlv umidv) (clampedM (qv+1) mmidv))
+          (openBasis (qv+1+av) (clampedU x0v xlv umidv) (clampedM (qv+1+av) (mmidv.map (· + av)))) o o' := by
+  obtain ⟨Eu, _, hdu⟩ := h.dirOKw htol au pts hg hadm Ni H_sw
+  obtain ⟨Ev, _, hdv⟩ := dirOK_clamped tol htol qv av hqv x0v xlv umidv mmidv hlenv hmv hgapv
+  rw [← hb0] at hdu
+  rw [← hb1] at hdv
+  have hguard : Obj.raiseGuard tol o.bases.toList = .ok true := by
+    rw [bases_of_wf2 hw, hb0]
+    exact raiseGuard_periodic' tol _ (by show (0 : Int) ≤ (k : Int); omega) _
+  obtain ⟨o', h1, h2, h3⟩ := raiseOrder_surface_sameEval_w o tol htol hw au av _ _ Eu Ev hdu hdv.weak hnc hnz hguard
+  exact ⟨o', h1, h2, by rw [← hb0, ← hb1]; exact h3⟩
+
+
+/-! ## Periodic curves -/
+
+/-- `ElevatedOn` the parameters admissible for both bases gives `Bridge.SameEvalCurve`. -/
+theorem sameEvalCurve_of_elevatedOn {o o' : Obj K} {b b' : Basis K} (hb : o.bases = #[b]) (hv : b.Valid)
+    (hv' : b'.Valid) {nc : ℕ} (hs : o.cps.shape = [b.numFunctions, nc])
+    (hnc : o.rational = true → 1 ≤ nc) {tol : K} (htol : 0 < tol)
+    (hE : ElevatedOn (fun u => b.Admissible tol u ∧ b'.Admissible tol u) tol b b' nc o o') :
+    Bridge.SameEvalCurve tol b b' o o' := by
+  intro us hus hus'
+  obtain ⟨hb', hrat, hs', hmap, _⟩ := hE
+  have hsame : ∀ p, p < us.length → Bridge.SameAlong o o' 0 b.numFunctions b'.numFunctions
+      (b.specRow (us.getD p 0)) (b'.specRow (us.getD p 0)) := by
+    intro p hp
+    set u := us.getD p 0 with hu
+    have hu1 := hus u (getD_mem_of_lt us hp 0)
+    have hu2 := hus' u (getD_mem_of_lt us hp 0)
+    intro a i ha hi
+    have ha0 : a = 0 := by
+      unfold C04.outerN at ha; rw [hs] at ha
+      simp [Tensor.split3, Tensor.prod] at ha
+      exact ha
+    have hi' : i < nc := by
+      unfold C04.innerN at hi; rw [hs] at hi
+      simpa [Tensor.split3, Tensor.prod] using hi
+    subst ha0
+    have h := hmap u ⟨hu1, hu2⟩ i hi'
+    have e1 : ∀ j, C04.fibre o 0 0 i j = o.cps.get (j * nc + i) := by
+      intro j; simp [C04.fibre, Tensor.at3, Tensor.split3, Tensor.prod, hs]
+    have e2 : ∀ j, C04.fibre o' 0 0 i j = o'.cps.get (j * nc + i) := by
+      intro j; simp [C04.fibre, Tensor.at3, Tensor.split3, Tensor.prod, hs']
+    have l : ∑ j ∈ range b'.numFunctions, b'.specRow u j * C04.fibre o' 0 0 i j
+        = ∑ r ∈ range b'.numFunctions, (b'.evaluate tol u 0 true).getD r 0 * o'.cps.get (r * nc + i) :=
+      sum_congr rfl (fun j hj => by
+        rw [Bridge.specRow_eq_evaluate hv' htol hu2 (mem_range.mp hj), e2 j])
+    have r : ∑ j ∈ range b.numFunctions, b.specRow u j * C04.fibre o 0 0 i j
+        = ∑ j ∈ range b.numFunctions, (b.evaluate tol u 0 true).getD j 0 * o.cps.get (j * nc + i) :=
+      sum_congr rfl (fun j hj => by
+        rw [Bridge.specRow_eq_evaluate hv htol hu1 (mem_range.mp hj), e1 j])
+    rw [l, r]
+    exact h
+  obtain ⟨e, res, e1, e2⟩ := Bridge.transfer_curve hb hb' hv hv' hs hs' hrat hnc htol rfl hus hus' hsame
+  exact ⟨res, e1, e2, e.trans e1, Bridge.pointwise_curve hb hb' hv hv' hs hs' hrat hnc htol rfl hus hus' e⟩
 
 end Splipy
